@@ -218,6 +218,18 @@ func (g *guardEnv) predOfFact(f condFact, k elemKey, at *ssa.BasicBlock) predSet
 		if cal == nil || !p.inModule(cal) || len(x.Call.Args) < 2 {
 			return 0
 		}
+		// the conditions loop extracted into a helper: allPass(each.If, request)
+		for li, a := range x.Call.Args {
+			b, fld, ok := fieldLoad(strip(a))
+			if !ok || fld.Name() != "If" || !sameKey(g.resolveKey(b), k) || li >= len(cal.Params) {
+				continue
+			}
+			for ri, ra := range x.Call.Args {
+				if g.isReq(ra) && ri < len(cal.Params) && universalCallScan(p, cal, cal.Params[li], cal.Params[ri]) {
+					return pIf
+				}
+			}
+		}
 		// a predicate method on the candidate taking a header-derived string
 		if !sameKey(g.resolveKey(x.Call.Args[0]), k) || !isRouteish(x.Call.Args[0].Type()) {
 			return 0
@@ -698,4 +710,79 @@ func (g *guardEnv) routeGuar(v ssa.Value) predSet {
 		}
 	}
 	return 0
+}
+
+// universalCallScan: h answers true only when every element of its parameter `list` (a slice of
+// functions) was called with parameter `arg` and returned true: the failing call cannot reach a
+// positive return, and a passing call only leads back to the loop.
+func universalCallScan(p *Program, h *ssa.Function, list, arg *ssa.Parameter) bool {
+	if h.Blocks == nil {
+		return false
+	}
+	cyc := blocksOnCycles(h)
+	var cond *ssa.Call
+	eachInstr(h, func(i ssa.Instruction) {
+		call, ok := i.(*ssa.Call)
+		if !ok || !isDynamicCall(&call.Call) || len(call.Call.Args) != 1 || call.Call.Args[0] != ssa.Value(arg) || !cyc[i.Block()] {
+			return
+		}
+		u, ok := strip(call.Call.Value).(*ssa.UnOp)
+		if !ok {
+			return
+		}
+		if ia, ok := u.X.(*ssa.IndexAddr); ok && strip(ia.X) == ssa.Value(list) {
+			cond = call
+		}
+	})
+	if cond == nil {
+		return false
+	}
+	iff, ok := cond.Block().Instrs[len(cond.Block().Instrs)-1].(*ssa.If)
+	if !ok || condRoot(iff.Cond) != ssa.Value(cond) {
+		return false
+	}
+	pol := true
+	for c := iff.Cond; ; {
+		u, ok := c.(*ssa.UnOp)
+		if !ok || u.Op != token.NOT {
+			break
+		}
+		c, pol = u.X, !pol
+	}
+	failSucc, passSucc := cond.Block().Succs[1], cond.Block().Succs[0]
+	if !pol {
+		failSucc, passSucc = passSucc, failSucc
+	}
+	if pos, _ := canReachPositive(failSucc, cond.Block()); pos {
+		return false
+	}
+	// the loop header
+	var header *ssa.BasicBlock
+	for b := cond.Block().Idom(); b != nil; b = b.Idom() {
+		if cyc[b] && reachableBlocks(cond.Block().Succs, nil)[b] {
+			if _, ok := b.Instrs[len(b.Instrs)-1].(*ssa.If); ok {
+				header = b
+				break
+			}
+		}
+	}
+	if header == nil {
+		return false
+	}
+	// after a passing call, a positive return is reachable only through the header (the next element / exhaustion)
+	for b := range reachableBlocks([]*ssa.BasicBlock{passSucc}, map[*ssa.BasicBlock]bool{header: true}) {
+		if r, ok := b.Instrs[len(b.Instrs)-1].(*ssa.Return); ok {
+			if v, isC := constBool(r.Results[0]); !isC || v {
+				return false
+			}
+		}
+	}
+	// and there is a positive return at all
+	has := false
+	for _, r := range returnsOf(h) {
+		if v, isC := constBool(r.Results[0]); !isC || v {
+			has = true
+		}
+	}
+	return has
 }
